@@ -18,7 +18,7 @@ DEFINITE = ('postcondition not satisfied', 'precondition not satisfied', 'assert
             'loop invariant', 'decreases not satisfied', 'failed this postcondition',
             'could not prove termination', 'recommendation not met', 'cannot show invariant holds',
             'invariant not satisfied at end of loop body', 'invariant not satisfied before loop',
-            'unreachable', 'panic', 'requires not satisfied')
+            'unreachable', 'panic', 'requires not satisfied', 'simplifies to false')
 UNDECIDED_MARKS = ('resource limit', 'rlimit', 'timed out', 'timeout', 'internal error', 'ICE', 'panicked at')
 
 
@@ -108,6 +108,19 @@ def _verify_one(repo, workdir, name, mode, roots, tag):
             r.breakdown.append(dict(function=fn, ms=fb['time'], rlimit=fb.get('rlimit'), ok=fb['success']))
     diags = parse_diags(err)
     errs = [d for d in diags if d['sev'] == 'error' and not d['msg'].startswith('aborting due to')]
+    # a failing `assert(..) by(compute)` over table data copied from the repository (rule R15) is a failed
+    # obligation about the repository's data, not a front-end problem
+    data_ids = [f['id'] for f in meta if 'R15' in f.get('rules', [])]
+    comp = [d for d in errs if 'simplifies to false' in d['msg']]
+    if comp and data_ids:
+        lines = text.split('\n')
+        for d in comp:
+            clause = lines[d['line'] - 1].strip() if d['line'] and d['line'] - 1 < len(lines) else ''
+            r.failed.append(dict(obligation='%s#data[%s]' % (data_ids[0], clause[:100]), kind='data', function=data_ids[0], item=None,
+                                 line=d['line'], message=d['msg'], mode=mode, text='\n'.join(d['text'][:14])))
+        r.status = 'failed'
+        r.errors = max(r.errors, len(comp))
+        return r, text, meta, linemap
     if vr.get('encountered-vir-error') or (errs and r.verified + r.errors == 0) or (rc != 0 and not errs):
         r.status = 'undecided'
         r.reason = ('verus front-end (%s): ' % tag) + ('; '.join(d['msg'] for d in errs[:3]) if errs else 'rc=%d' % rc)
@@ -248,7 +261,9 @@ def run_canaries(agg, repo, workdir, parts, jobs):
 
     def one(job):
         fid, p = job
-        cmd, out, err, rc, wall = run_verus(p)
+        # the global canary only needs its own proof function checked (the rest of the file was just verified)
+        extra = ['--verify-root', '--verify-function', '__canary_global'] if fid.startswith('<global') else []
+        cmd, out, err, rc, wall = run_verus(p, extra)
         try:
             vr = json.loads(out)['verification-results']
         except Exception:
